@@ -6,6 +6,8 @@
 (***************************************************************************)
 EXTENDS System, TLCExt
 
+CONSTANT PeekLine     \* 0, or the index of a line whose candidate observations are to be printed (rejection diagnosis)
+
 TraceLog == ndJsonDeserialize("trace.ndjson")
 
 VARIABLES l, ph
@@ -56,6 +58,9 @@ TSpec == TInit /\ [][TNext]_tvars
 
 HighWater == TLCSet(1, IF TLCGetOrDefault(1, 0) < l THEN l ELSE TLCGetOrDefault(1, 0))
 Report == TLCGet("stats").diameter >= 0 /\ PrintT("@@" \o ToJson([hw |-> TLCGetOrDefault(1, 0), len |-> Len(TraceLog)]))
+
+\* diagnosis of a rejection: print every observation the model allows at line PeekLine
+Peek == (PeekLine > 0 /\ ph = "run" /\ l = PeekLine /\ Quiescent) => PrintT("@@" \o ToJson([peek |-> Obs]))
 
 TraceInv == TypeOK /\ CloseOnce /\ OneWrite /\ StreamInvs /\ WireOrdered
 =============================================================================
